@@ -11,8 +11,8 @@ import l1
 import l2
 import vlib
 
-MODELLED = ["SO2", "SE2", "SO3", "SE3"]          # groups with a Lean model (L1 + theorems)
-ALL_GROUPS = ["SO2", "SE2", "SO3", "SE3"]        # groups the harness / oracle cover (L2)
+MODELLED = ["SO2", "SE2", "SO3", "SE3", "SE_2_3", "R1", "R2", "R3", "R5"]          # groups with a Lean model (L1 + theorems)
+ALL_GROUPS = ["SO2", "SE2", "SO3", "SE3", "SE_2_3", "R1", "R3", "R5"]        # groups the harness / oracle cover (L2)
 
 PROPS = {
     "C01": dict(l1_ops=["compose", "inverse", "act", "transform", "rotation", "adj"], l2="C01",
@@ -31,7 +31,7 @@ LEVEL = collections.defaultdict(lambda: "proof")
 def case_from_request(pid, line, r):
     """directed search: turn an L1-disagreeing request into a property-level case at that input"""
     t = line.split()
-    dbg, group, op = t[0] == "1", t[2], t[3]
+    dbg, group, op = True, t[2], t[3]      # L2 always runs on the assertion-enabled build
     a = [gen.of_hex(x) for x in t[5:] if not x.startswith("#")]
     G = gen.GROUPS[group]
     R, D = G["repsize"], G["dof"]
@@ -117,7 +117,8 @@ def run_property(pid, thorough, seed, res):
         impl, model = l1.run(reqs, builds[dbg])
         n_lines += len(reqs)
         for (line, tags), a, b in zip(reqs, impl, model):
-            eq, why = l1.compare(a, b)
+            tk = line.split()
+            eq, why = l1.compare(a, b, (tk[2], tk[3]))
             res.add_cells([("L1",) + tuple(tags[:3]) + tuple(x.split("/")[0] for x in tags[3:]) + (a.split()[0],)])
             if eq:
                 bit_equal += 1
@@ -146,8 +147,8 @@ def run_property(pid, thorough, seed, res):
     for v in viol:
         k = check.match_known(v, known)
         if k:
-            res.known_hits.setdefault("%s %s %s %s [%s]: %s" % (k.get("group"), k.get("op"), k.get("output"),
-                                                               ",".join(k.get("stratum", [])), k.get("id", ""), k.get("why", "")[:80]), 0)
+            res.known_hits.setdefault("%s group=%s op=%s output=%s stratum=%s: %s" % (
+                k.get("id", ""), k.get("group"), k.get("op"), k.get("output"), ",".join(k.get("stratum", [])), k.get("witness", "")[:100]), 0)
         else:
             new.append(v)
     res.notes["l2"] = dict(cases=len(cs), violations=len(viol), unlisted=len(new))
